@@ -547,9 +547,30 @@ def spell(rng, x, allow_sign=True):
     return t
 
 
-def new_value(rng, tok_val):
-    cls = rng.choice(["digits", "digits", "scale", "tiny", "huge", "third", "round", "near_int", "full"])
+PERTURB = ["perturb_rel", "perturb_rel", "perturb_abs", "at_tol"]
+
+
+def new_value(rng, tok_val, stats=None):
+    """a new value for a number whose token reads tok_val (None: no token).  A third of the time the new value
+    is a tiny perturbation of the old one: relative 1e-8..1e-5, absolute 1e-9..1e-7, or almost exactly the
+    tolerance — the object layer must hand even those to the node (sign of the old value kept)."""
+    classes = ["digits", "digits", "scale", "tiny", "huge", "third", "round", "near_int", "full"]
+    if tok_val is not None:
+        classes += PERTURB
+    cls = rng.choice(classes)
+    if stats is not None:
+        stats[cls] = stats.get(cls, 0) + 1
     b = abs(tok_val) if tok_val else 1.0
+    if cls == "perturb_rel":
+        if tok_val == 0:
+            return rng.choice([-1, 1]) * 10.0 ** rng.uniform(-9, -7)
+        return tok_val * (1 + rng.choice([-1, 1]) * 10.0 ** rng.uniform(-8, -5))
+    if cls == "perturb_abs":
+        return tok_val + rng.choice([-1, 1]) * 10.0 ** rng.uniform(-9, -7)
+    if cls == "at_tol":
+        if tok_val == 0:
+            return 5e-9
+        return tok_val * (1 + rng.choice([-1, 1]) * 1e-9 * rng.choice([0.5, 0.999, 1.001, 1.5, 3.0]))
     if cls == "digits":
         return b * rng.uniform(0.5, 2.0)
     if cls == "scale":
@@ -573,8 +594,8 @@ def gen_carrier(rng):
     layout = rng.choice(["params", "data"])            # importances / volumes as cell parameters or data cards
     dens1 = spell(rng, rng.uniform(0.5, 20), False)
     dens3 = spell(rng, rng.uniform(1e-3, 0.1), False)
-    imp = [rng.choice(["1", "2", "1.0", "0.5", "2.50"]) for _ in range(3)]
-    vol = [spell(rng, rng.uniform(0.5, 500), False) for _ in range(3)]
+    imp = [rng.choice(["1", "2", "1.0", "0.5", "2.50"]) for _ in range(5)]
+    vol = [spell(rng, rng.uniform(0.5, 500), False) for _ in range(5)]
     jump_vol = layout == "data" and rng.random() < 0.5
     if jump_vol:
         vol[1] = "J"
@@ -590,17 +611,17 @@ def gen_carrier(rng):
     ntr = rng.choice([3, 3, 12, 9, 5])
     tr1 = [spell(rng, rng.uniform(0.5, 9)) for _ in range(3)]
     rot = ["1", "0", "0", "0", "1", "0", "0", "0", "1"]
+    if rng.random() < 0.5:
+        rot = ["0.8", "0.6", "0", "-0.6", "0.8", "0", "0", "0", "1"]
     if ntr > 3:
         tr1 += rot[:ntr - 3]
     tr2 = [spell(rng, rng.uniform(0.5, 9)) for _ in range(3)] + ["30", "60", "90", "120", "30", "90", "90", "90", "0"]
-    c1 = "1 1 -%s -1 2" % dens1
-    c2 = "2 0 1:-2 3"
-    c3 = "3 2 %s -3 4" % dens3
+    fill = [rng.choice(["0", "0.0", spell(rng, rng.uniform(0.5, 9))]) for _ in range(3)]      # cell 4: fill=9 (dx dy dz)
+    c = ["1 1 -%s -1 2" % dens1, "2 0 1:-2 3", "3 2 %s -3 4" % dens3, "4 0 -5 fill=9 (%s)" % " ".join(fill),
+         "5 0 -3 u=9"]
     if layout == "params":
-        c1 += " imp:n=%s vol=%s" % (imp[0], vol[0])
-        c2 += " imp:n=%s vol=%s" % (imp[1], vol[1])
-        c3 += " imp:n=%s vol=%s" % (imp[2], vol[2])
-    lines = ["C05 carrier", c1, c2, c3, "",
+        c = [c[i] + " imp:n=%s vol=%s" % (imp[i], vol[i]) for i in range(5)]
+    lines = ["C05 carrier"] + c + ["",
              "1 px " + sc[1][0], "2 pz " + sc[2][0], "3 so " + sc[3][0], "4 c/z " + " ".join(sc[4]),
              "5 cz " + sc[5][0], "6 gq " + " ".join(sc[6][:5]), "     " + " ".join(sc[6][5:]),
              "7 1 py " + sc[7][0], "",
@@ -611,57 +632,83 @@ def gen_carrier(rng):
         lines.append("vol " + " ".join(vol))
     text = "\n".join(lines) + "\n"
     slots = {"dens1": "-" + dens1, "dens3": dens3, "imp": imp, "vol": vol, "sc": sc, "fr1": fr1, "fr2": fr2,
-             "tr1": tr1, "tr2": tr2}
+             "tr1": tr1, "tr2": tr2, "fill": fill}
     ops = []
+    vstats = {}
+
     def tv(t):
         f = spec.read_number(t.upper()) if t not in ("J",) else None
         return float(f) if f is not None else None
+
+    def nv(old, flip=False):
+        """new value for a slot whose token reads old; a random sign only for values that are not perturbations"""
+        before = dict(vstats)
+        v = new_value(rng, old, vstats)
+        pert = any(vstats.get(k, 0) != before.get(k, 0) for k in PERTURB)
+        if flip and not pert and rng.random() < 0.5:
+            v = -v
+        return v
+
+    dens_cur = {1: abs(tv(dens1)), 3: abs(tv(dens3))}
     for _ in range(rng.randint(2, 7)):
-        op = rng.choice(["loc", "loc", "radius", "coords", "consts", "mass", "atom", "frac", "disp", "rot", "rot_longer",
-                         "imp", "vol", "newcell"])
+        op = rng.choice(["loc", "loc", "radius", "coords", "consts", "mass", "atom", "frac", "disp", "disp", "rot", "rot",
+                         "rot_longer", "fill_disp", "imp", "vol", "newcell"])
         if op == "loc":
             sn = rng.choice([1, 2, 7])
-            v = new_value(rng, tv(sc[sn][0])) * rng.choice([1, 1, -1])
-            ops.append(["loc", sn, [v]])
+            ops.append(["loc", sn, [nv(tv(sc[sn][0]), True)]])
         elif op == "radius":
             sn = rng.choice([4, 5])
-            ops.append(["radius", sn, [new_value(rng, tv(sc[sn][-1]))]])
+            ops.append(["radius", sn, [abs(nv(tv(sc[sn][-1])))]])
         elif op == "coords":
-            ops.append(["coords", 4, [new_value(rng, 1.0) * rng.choice([1, -1]), new_value(rng, 2.0)]])
+            ops.append(["coords", 4, [nv(tv(sc[4][0]), True), nv(tv(sc[4][1]))]])
         elif op == "consts":
             sn = rng.choice([3, 6])
             cur = [tv(t) for t in sc[sn]]
             k = rng.randrange(len(cur))
             new = list(cur)
-            new[k] = new_value(rng, cur[k]) * (rng.choice([1, -1]) if sn == 6 else 1)
+            new[k] = nv(cur[k], sn == 6)
+            if sn == 3:
+                new[k] = abs(new[k])
             ops.append(["consts", sn, new, k])
         elif op == "mass":
-            ops.append(["mass", rng.choice([1, 3]), [new_value(rng, 2.0)]])
+            cn = rng.choice([1, 3])
+            ops.append(["mass", cn, [abs(nv(dens_cur[cn]))]])
         elif op == "atom":
-            ops.append(["atom", rng.choice([1, 3]), [new_value(rng, 0.05)]])
+            cn = rng.choice([1, 3])
+            ops.append(["atom", cn, [abs(nv(dens_cur[cn]))]])
         elif op == "frac":
-            ops.append(["frac", rng.choice([1, 2]), rng.randrange(2), [new_value(rng, 0.5)]])
+            mn, k = rng.choice([1, 2]), rng.randrange(2)
+            ops.append(["frac", mn, k, [abs(nv(abs(tv((fr1 if mn == 1 else fr2)[k]))))]])
         elif op == "disp":
             tn = rng.choice([1, 2])
-            ops.append(["disp", tn, [new_value(rng, 1.0) * rng.choice([1, -1]) for _ in range(3)]])
+            cur = [tv(t) for t in (tr1 if tn == 1 else tr2)[:3]]
+            ops.append(["disp", tn, [nv(x, True) if rng.random() < 0.7 else x for x in cur]])
         elif op == "rot":
-            th = rng.uniform(0, 3)
-            ops.append(["rot", 2, [math.degrees(th), 90 - math.degrees(th), 90.0, 90 + math.degrees(th), math.degrees(th), 90.0, 90.0, 90.0, 0.0]])
+            tn = 2 if ntr < 12 or rng.random() < 0.5 else 1
+            cur = [tv(t) for t in (tr1 if tn == 1 else tr2)[3:12]]
+            ops.append(["rot", tn, [nv(x) if rng.random() < 0.5 else x for x in cur]])
         elif op == "rot_longer":
             th = rng.uniform(0.01, 3)
             ops.append(["rot", 1, [math.cos(th), -math.sin(th), 0.0, math.sin(th), math.cos(th), 0.0, 0.0, 0.0, 1.0]])
+        elif op == "fill_disp":
+            cur = [tv(t) for t in fill]
+            ops.append(["fill_disp", 4, [nv(x, True) if rng.random() < 0.7 else x for x in cur]])
         elif op == "imp":
-            ops.append(["imp", rng.choice([1, 2, 3]), [rng.choice([0.0, 1.0, 2.0, new_value(rng, 1.0)])]])
+            cn = rng.choice([1, 2, 3])
+            ops.append(["imp", cn, [rng.choice([0.0, 1.0, 2.0, abs(nv(tv(imp[cn - 1])))])]])
         elif op == "vol":
-            ops.append(["vol", rng.choice([1, 2, 3]), [new_value(rng, 10.0)]])
+            cn = rng.choice([1, 2, 3])
+            ops.append(["vol", cn, [abs(nv(tv(vol[cn - 1])))]])
         else:
-            ops.append(["newcell", 10 + len(ops), [new_value(rng, 2.0), new_value(rng, 1.0), new_value(rng, 10.0)]])
+            ops.append(["newcell", 10 + len(ops), [new_value(rng, None, vstats), new_value(rng, None, vstats),
+                                                   new_value(rng, None, vstats)]])
     # identifiers: integers are written exactly, on the card and wherever the object is pointed at
     if rng.random() < 0.4:
         for kind in rng.sample(["renum_surf", "renum_mat", "renum_tr", "renum_cell"], rng.randint(1, 2)):
             new = rng.choice([rng.randint(20, 99), rng.randint(100, 99999), rng.randint(10 ** 5, 99999999)])
             ops.append([kind, {"renum_surf": 5, "renum_mat": 2, "renum_tr": 1, "renum_cell": 2}[kind], [new]])
-    return {"text": text, "layout": layout, "slots": slots, "ops": ops, "ntr": ntr, "jump_vol": jump_vol}
+    return {"text": text, "layout": layout, "slots": slots, "ops": ops, "ntr": ntr, "jump_vol": jump_vol,
+            "value_classes": vstats}
 
 
 def norm_carrier(car):
@@ -686,9 +733,11 @@ def run_carrier(car):
             exp[("surf", sn, i)] = ("kept", t)
     exp[("dens", 1, 0)] = ("kept", sl["dens1"])
     exp[("dens", 3, 0)] = ("kept", sl["dens3"])
-    for i in range(3):
+    for i in range(len(sl["imp"])):
         exp[("imp", i + 1, 0)] = ("kept", sl["imp"][i])
         exp[("vol", i + 1, 0)] = ("kept", sl["vol"][i])
+    for i, t in enumerate(sl.get("fill", [])):
+        exp[("fill", 4, i)] = ("kept", t)
     for i in range(2):
         exp[("frac", 1, i)] = ("kept", sl["fr1"][i])
         exp[("frac", 2, i)] = ("kept", sl["fr2"][i])
@@ -697,6 +746,13 @@ def run_carrier(car):
     for i, t in enumerate(sl["tr2"]):
         exp[("tr", 2, i)] = ("kept", t)
     trs = {d.number: d for d in pr.data_inputs if isinstance(d, Transform)}
+
+    def set_or_keep(key, v):
+        how, old = exp.get(key, ("set", None))
+        if how == "kept" and old != "J" and float(spec.read_number(old.upper())) == v:
+            return                                  # assigned the value the token already has
+        exp[key] = ("set", v)
+
     with warnings.catch_warnings():
         warnings.simplefilter("ignore")
         for op in car["ops"]:
@@ -732,11 +788,15 @@ def run_carrier(car):
             elif k == "disp":
                 trs[op[1]].displacement_vector = np.array(op[2])
                 for i, v in enumerate(op[2]):
-                    exp[("tr", op[1], i)] = ("set", v)
+                    set_or_keep(("tr", op[1], i), v)
             elif k == "rot":
                 trs[op[1]].rotation_matrix = np.array(op[2])
                 for i, v in enumerate(op[2]):
-                    exp[("tr", op[1], 3 + i)] = ("set", v)
+                    set_or_keep(("tr", op[1], 3 + i), v)
+            elif k == "fill_disp":
+                pr.cells[op[1]].fill.transform.displacement_vector = np.array(op[2])
+                for i, v in enumerate(op[2]):
+                    set_or_keep(("fill", op[1], i), v)
             elif k == "imp":
                 pr.cells[op[1]].importance.neutron = op[2][0]
                 exp[("imp", op[1], 0)] = ("set", op[2][0])
@@ -798,6 +858,9 @@ def read_carrier(out):
                 got[("imp", num, 0)] = vals[0]
             if key == "VOL" and vals:
                 got[("vol", num, 0)] = vals[0]
+            if key in ("FILL", "*FILL") and "(" in vals:
+                for j, t in enumerate(vals[vals.index("(") + 1: vals.index(")") if ")" in vals else None]):
+                    got[("fill", num, j)] = t
     for card in surfs:
         toks = spec.tokens(card.text)
         num = int(toks[0].lstrip("*+"))
@@ -1112,7 +1175,7 @@ def run(ctx):
     # ---- the model's building blocks
     aux_checks(ctx, cases, dist)
     # ---- carriers: real problems edited through the API, written, re-read by spec.py
-    cdist = {"n": 0, "ops": {}, "layout": {}, "failures": {}}
+    cdist = {"n": 0, "ops": {}, "layout": {}, "value_classes": {}, "failures": {}}
     for i in range(n_carriers):
         carriers.append(gen_carrier(random.Random(f"{ctx.seed}:C05:carrier:{i}")))
     for car in carriers:
@@ -1120,6 +1183,8 @@ def run(ctx):
         cdist["layout"][car["layout"]] = cdist["layout"].get(car["layout"], 0) + 1
         for op in car["ops"]:
             cdist["ops"][op[0]] = cdist["ops"].get(op[0], 0) + 1
+        for k, n in car.get("value_classes", {}).items():
+            cdist["value_classes"][k] = cdist["value_classes"].get(k, 0) + n
         ctx.count_case(("carrier", car["text"], json.dumps(car["ops"])), nontrivial=True)
         f = check_carrier(car)
         if f is not None:
